@@ -755,7 +755,7 @@ impl VirtualFileSystem for Memfs {
         if !self.is_dir(&path) {
             return Err(PathError::is_not_dir(&path).into());
         }
-        for entry in self.entries(path)?.min_depth(1).sort_by_name().dirs() {
+        for entry in self.entries(path)?.min_depth(1).sort_by_name().into_iter().filter_p(|x| x.is_dir() && !x.is_symlink()) {
             let entry = entry?;
             paths.push(entry.path_buf());
         }
@@ -788,7 +788,7 @@ impl VirtualFileSystem for Memfs {
         if !self.is_dir(&path) {
             return Err(PathError::is_not_dir(&path).into());
         }
-        for entry in self.entries(path)?.min_depth(1).sort_by_name().files() {
+        for entry in self.entries(path)?.min_depth(1).sort_by_name().into_iter().filter_p(|x| x.is_file() && !x.is_symlink()) {
             let entry = entry?;
             paths.push(entry.path_buf());
         }
@@ -1232,7 +1232,7 @@ impl VirtualFileSystem for Memfs {
         if !self.is_dir(&path) {
             return Err(PathError::is_not_dir(&path).into());
         }
-        for entry in self.entries(path)?.min_depth(1).max_depth(1).sort_by_name().dirs() {
+        for entry in self.entries(path)?.min_depth(1).max_depth(1).sort_by_name().into_iter().filter_p(|x| x.is_dir() && !x.is_symlink()) {
             let entry = entry?;
             paths.push(entry.path_buf());
         }
@@ -1327,7 +1327,7 @@ impl VirtualFileSystem for Memfs {
         if !self.is_dir(&path) {
             return Err(PathError::is_not_dir(&path).into());
         }
-        for entry in self.entries(path)?.min_depth(1).max_depth(1).sort_by_name().files() {
+        for entry in self.entries(path)?.min_depth(1).max_depth(1).sort_by_name().into_iter().filter_p(|x| x.is_file() && !x.is_symlink()) {
             let entry = entry?;
             paths.push(entry.path_buf());
         }
